@@ -335,6 +335,8 @@ def directed(rng):
         'associate': [{'s': 'assoc', 'names': ['z1', 'z2', 'z3'], 'targets': [V('t1'), el('ia', call('mod', call('abs', V('m')), N(5))), add(V('n'), N(1))],
                        'body': [assign(V('z1'), add(V('z2'), V('z3'))), assign(V('z2'), V('t2'))]}, assign(V('k'), V('t1'))],
         'associate-unused-expression-selector': [{'s': 'assoc', 'names': ['z1', 'z3'], 'targets': [V('t1'), add(V('t2'), N(1))], 'body': [assign(V('z1'), N(2))]}, assign(V('k'), V('t1'))],
+        'associate-nested-expression-selector': [{'s': 'assoc', 'names': ['z1'], 'targets': [V('t1')], 'body': [
+            {'s': 'assoc', 'names': ['z2'], 'targets': [add(V('n'), N(1))], 'body': [assign(V('z1'), V('z2'))]}]}, assign(V('k'), V('t1'))],
         'section-assign': [assign(el('ia', F.rng_(N(1), N(4))), add(el('ia', F.rng_(N(0), N(3))), N(1))), assign(V('k'), el('ia', N(0)))],
         'raw-across-zero-trip-loop': [assign(V('t1'), N(3)), do_('i', N(1), V('n'), [assign(V('t1'), V('i'))]), assign(V('k'), V('t1'))],
         'raw-across-select': [assign(V('t1'), N(3)), select_(call('mod', call('abs', V('n')), N(3)), [(0, 0, [assign(V('t1'), N(5))])]), assign(V('k'), V('t1'))],
@@ -486,7 +488,7 @@ def run_cases(ctx, label, cases, entry='kernel', shards=None, timeout=2400):
 
     with cf.ThreadPoolExecutor(max_workers=8) as ex:
         progs = list(ex.map(build, range(len(cases))))
-    stats = dict(programs=len(cases), orig_failed=0, runs=0, illegal=0, preflight_failed=0, judged=0, runs_with_miss=0)
+    stats = dict(programs=len(cases), orig_failed=0, analysis_raised=0, runs=0, illegal=0, preflight_failed=0, judged=0, runs_with_miss=0)
     tcases, tmeta = [], []
     for p in progs:
         prog, inputs = cases[p['idx']]
@@ -497,7 +499,17 @@ def run_cases(ctx, label, cases, entry='kernel', shards=None, timeout=2400):
                 ctx.cover['orig_failed_examples'].append({'why': p['orig'][0] + ' ' + p['orig'][2][:600], 'program': p['text'][:2500]})
             continue
         nids = max([u['bid'] for u in prog['units']] + [i for u in prog['units'] for s in flat(u['body']) for i in [s['id']] + s.get('eids', [])])
-        p['sets'], p['classes'] = loki_sets(p['text'], prog, nids)      # serial: Loki is not thread-safe
+        try:
+            p['sets'], p['classes'] = loki_sets(p['text'], prog, nids)      # serial: Loki is not thread-safe
+        except MachineryError:
+            raise
+        except Exception as ex:  # pylint: disable=broad-except
+            import traceback
+            tb = traceback.extract_tb(ex.__traceback__)
+            fr = next((f for f in reversed(tb) if '/loki/' in f.filename), tb[-1])
+            p['raised'] = {'type': type(ex).__name__, 'where': fr.name, 'msg': str(ex)[:300], 'tb': ''.join(traceback.format_exception(ex))[-1500:]}
+            stats['analysis_raised'] += 1
+            continue
         for k, inp in enumerate(inputs):
             plain = k == 0 and not has_where(prog)      # cross-check with the un-instrumented FMachine once per program
             obs = p['orig'][1][k]
@@ -768,6 +780,17 @@ def report(ctx, label, clauses, cases, progs, runs):
             if g['best'] is None or size < g['best'][0]:
                 g['best'] = (size, r, m)
     ctx.cover[f'{label}_miss_groups'] = {k: g['n'] for k, g in sorted(groups.items())}
+    raised = {}
+    for p in progs:
+        if 'raised' in p:
+            r = p['raised']
+            key = f"analysis-raised:{r['type']}:{r['where']}"
+            if key not in raised or len(p['text']) < len(raised[key]['text']):
+                raised[key] = p
+    for key, p in sorted(raised.items()):
+        prog, inputs = cases[p['idx']]
+        ctx.violation(key, f"dataflow_analysis_attached raises on a legal routine (gfortran builds and runs it): {p['raised']['type']}: {p['raised']['msg']}\n"
+                           f"{p['raised']['tb']}\n--- program ---\n{p['text']}", {'prog': prog, 'inputs': inputs})
     for key, g in sorted(groups.items()):
         _, r, m = g['best']
         prog, inputs = cases[r['idx']]
